@@ -17,7 +17,7 @@ LEVEL_TEXT = ('every state of $topdir/.Trash (sticky dir, non-sticky dir, symlin
 LEVEL_NOTE = 'trusted: shim mount table / psutil substitute; ownership checks of .Trash/$uid itself are not part of the property'
 RULE = ('.Trash state (6) x command (put, list, restore+reply, empty, empty 0, rm *, rm exact) x volumes (v1 only; v1 insecure + v2 secure) x uid '
         '(0, 1000); non-trivial = the command examined the volume (stat of .Trash seen in the trace); distinct = outcome class x state x command')
-STATES = ['sticky', 'nonsticky', 'symlink-sticky', 'symlink-nonsticky', 'file', 'absent']
+STATES = ['sticky', 'nonsticky', 'nonsticky-private', 'symlink-sticky', 'symlink-nonsticky', 'file', 'absent']
 CMDS = ['put', 'list', 'restore', 'empty', 'empty0', 'rm-star', 'rm-exact', 'put-then-insecure']
 VOLS = ['v1', 'v1+v2', 'v1-sticky-topdir']
 
@@ -55,8 +55,8 @@ def run_case(c):
     if st == 'sticky':
         W.dir('/mnt/v1/.Trash', mode=0o1777)
         phys = '/mnt/v1/.Trash'
-    elif st == 'nonsticky':
-        W.dir('/mnt/v1/.Trash', mode=0o777)
+    elif st in ('nonsticky', 'nonsticky-private'):
+        W.dir('/mnt/v1/.Trash', mode=0o777 if st == 'nonsticky' else 0o700)
         phys = '/mnt/v1/.Trash'
     elif st in ('symlink-sticky', 'symlink-nonsticky'):
         W.dir('/mnt/v1/.real', mode=0o1777 if st == 'symlink-sticky' else 0o777).link('/mnt/v1/.Trash', '.real')
@@ -80,6 +80,9 @@ def run_case(c):
         after = sb.snapshot()
     secure = st == 'sticky'
     detail = {'argv': argv, 'exit': r.exit, 'out': r.out[-400:], 'err': r.err[-400:]}
+    if cmd == 'restore' and ('myalt-x1' not in r.out or (c['vols'] == 'v1+v2' and 'one-v2' not in r.out)):
+        return {'verdict': 'viol', 'sig': 'C08|restore-does-not-offer-entries-of-usable-trash-dirs|st=%s' % st, 'klass': 'usable-not-offered',
+                'detail': {'out': r.out[-400:], 'err': r.err[-300:]}}
     if cmd == 'list' and 'myalt-x1' not in r.out:
         return {'verdict': 'viol', 'sig': 'C08|own-Trash-uid-not-listed|st=%s' % st, 'klass': 'alt-not-listed', 'detail': {'out': r.out[-300:], 'err': r.err[-300:]}}
     if cmd in ('empty', 'rm-star') and world.under(after, alt + '/files/myalt'):
@@ -108,7 +111,7 @@ def run_case(c):
             if not world.under(after, '/mnt/v1/.Trash-%d/files/new' % uid) or r.exit != 0:
                 return {'verdict': 'viol', 'sig': 'C08|put-did-not-fall-through|st=%s' % st, 'klass': 'no-fallthrough',
                         'nontrivial': 'nofall|' + dims, 'detail': detail}
-        if cmd == 'list' and st in ('nonsticky', 'symlink-sticky', 'symlink-nonsticky') and '/mnt/v1/.Trash' not in r.err:
+        if cmd == 'list' and st in ('nonsticky', 'nonsticky-private', 'symlink-sticky', 'symlink-nonsticky') and '/mnt/v1/.Trash' not in r.err:
             return {'verdict': 'viol', 'sig': 'C08|list-silent-about-skipped-dir|st=%s' % st, 'klass': 'list-silent',
                     'nontrivial': 'silent|' + dims, 'detail': detail}
         if c['vols'] == 'v1+v2' and cmd == 'list' and not ('one-v2' in r.out and 'two-v2' in r.out):
